@@ -129,7 +129,11 @@ func sortOf(t types.Type) string {
 	case *types.Interface:
 		return SIface
 	case *types.Array:
-		return SInt // only ever used behind a pointer: the backing-array id
+		// an array value is its row of elements (value semantics); behind a pointer it is the row of the backing-array id
+		if isRowArray(t) {
+			return arr1(sortOf(u.Elem()))
+		}
+		return SInt // arrays of structs / arrays / reflect values: only ever used behind a pointer (the backing-array id)
 	case *types.Struct:
 		panic("sortOf(struct) " + typeKey(t))
 	case *types.Tuple:
@@ -138,7 +142,26 @@ func sortOf(t types.Type) string {
 	panic("sortOf: " + typeKey(t))
 }
 
+// isRowArray: an array type whose values are modelled as rows (Array Int elem).
+func isRowArray(t types.Type) bool {
+	at, ok := t.Underlying().(*types.Array)
+	if !ok {
+		return false
+	}
+	if isStruct(at.Elem()) || isReflectValue(at.Elem()) {
+		return false
+	}
+	if _, nested := at.Elem().Underlying().(*types.Array); nested {
+		return false
+	}
+	return true
+}
+
 func zeroTerm(t types.Type) string {
+	if isRowArray(t) {
+		at := t.Underlying().(*types.Array)
+		return "((as const " + arr1(sortOf(at.Elem())) + ") " + zeroTerm(at.Elem()) + ")"
+	}
 	switch sortOf(t) {
 	case SInt:
 		return "0"
@@ -633,6 +656,12 @@ func (u *Universe) load(s *State, l *Loc) Val {
 		u.keySort(key, arr2(srt))
 		return Val{T: sel(sel(u.get(s, key), l.Base), l.Idx), Typ: t}
 	case LCell:
+		if isRowArray(t) {
+			at := t.Underlying().(*types.Array)
+			key := "A$" + elemKey(at.Elem())
+			u.keySort(key, arr2(sortOf(at.Elem())))
+			return Val{T: sel(u.get(s, key), l.Base), Typ: t}
+		}
 		key := "C$" + elemKey(t)
 		u.keySort(key, arr1(srt))
 		return Val{T: sel(u.get(s, key), l.Base), Typ: t}
@@ -685,6 +714,14 @@ func (u *Universe) storeLoc(s *State, l *Loc, v Val) {
 		cur := u.get(s, key)
 		u.set(s, key, arr2(srt), store(cur, l.Base, store(sel(cur, l.Base), l.Idx, v.T)))
 	case LCell:
+		if isRowArray(t) {
+			at := t.Underlying().(*types.Array)
+			key := "A$" + elemKey(at.Elem())
+			srt2 := arr2(sortOf(at.Elem()))
+			u.keySort(key, srt2)
+			u.set(s, key, srt2, store(u.get(s, key), l.Base, v.T))
+			return
+		}
 		key := "C$" + elemKey(t)
 		u.keySort(key, arr1(srt))
 		u.set(s, key, arr1(srt), store(u.get(s, key), l.Base, v.T))
